@@ -163,7 +163,9 @@ func (us *Unstakes) increaseUnstake(v *big.Int, eh int64, sm, revision int) ([]T
 		newValue := new(big.Int).Add(last.GetValue(), v)
 		newHeight := lastExpire
 		if revision < icmodule.RevisionMultipleUnstakes || eh > lastExpire {
-			tl = append(tl, TimerJobInfo{JobTypeRemove, lastExpire})
+			if !us.hasExpire(lastIndex, lastExpire) {
+				tl = append(tl, TimerJobInfo{JobTypeRemove, lastExpire})
+			}
 			tl = append(tl, TimerJobInfo{JobTypeAdd, eh})
 			newHeight = eh
 		}
@@ -179,6 +181,17 @@ func (us *Unstakes) increaseUnstake(v *big.Int, eh int64, sm, revision int) ([]T
 		tl = append(tl, TimerJobInfo{JobTypeAdd, eh})
 	}
 	return tl, nil
+}
+
+// hasExpire reports whether one of the first n slots expires at height h;
+// such a slot still needs the unstaking timer of that height.
+func (us *Unstakes) hasExpire(n int, h int64) bool {
+	for _, u := range (*us)[:n] {
+		if u.GetExpire() == h {
+			return true
+		}
+	}
+	return false
 }
 
 func (us Unstakes) findIndex(h int64) int64 {
@@ -204,7 +217,9 @@ func (us *Unstakes) decreaseUnstake(v *big.Int, expireHeight int64, revision int
 		case 0, 1:
 			// Remove an unstake slot
 			*us = (*us)[:i]
-			tl = append(tl, TimerJobInfo{Type: JobTypeRemove, Height: u.GetExpire()})
+			if !us.hasExpire(i, u.GetExpire()) {
+				tl = append(tl, TimerJobInfo{Type: JobTypeRemove, Height: u.GetExpire()})
+			}
 			if cmp == 0 {
 				return tl, nil
 			} else {
